@@ -431,7 +431,7 @@ fn statement_cases() -> Vec<Base> {
 }
 
 #[derive(Clone, Debug)]
-enum Shape {
+pub enum Shape {
     S,
     If(Vec<Shape>, Option<Vec<Shape>>),
     While(Vec<Shape>),
@@ -439,7 +439,7 @@ enum Shape {
     Fun(Vec<Shape>),
 }
 
-fn shape_stmt(n: usize, d: usize, memo: &mut std::collections::HashMap<(usize, usize), Space<Vec<Shape>>>) -> Space<Shape> {
+pub fn shape_stmt(n: usize, d: usize, memo: &mut std::collections::HashMap<(usize, usize), Space<Vec<Shape>>>) -> Space<Shape> {
     if n == 0 {
         return Space::empty();
     }
@@ -464,7 +464,7 @@ fn shape_stmt(n: usize, d: usize, memo: &mut std::collections::HashMap<(usize, u
     Space::union(parts)
 }
 
-fn shape_block(n: usize, d: usize, memo: &mut std::collections::HashMap<(usize, usize), Space<Vec<Shape>>>) -> Space<Vec<Shape>> {
+pub fn shape_block(n: usize, d: usize, memo: &mut std::collections::HashMap<(usize, usize), Space<Vec<Shape>>>) -> Space<Vec<Shape>> {
     if let Some(s) = memo.get(&(n, d)) {
         return s.clone();
     }
@@ -491,7 +491,7 @@ fn shape_block(n: usize, d: usize, memo: &mut std::collections::HashMap<(usize, 
     s
 }
 
-fn shape_to_tsb(b: &[Shape], counter: &mut usize) -> Vec<TSB> {
+pub fn shape_to_tsb(b: &[Shape], counter: &mut usize) -> Vec<TSB> {
     b.iter()
         .map(|s| {
             *counter += 1;
